@@ -1,8 +1,10 @@
 package main
 
 import (
+	"bytes"
 	"fmt"
 	"go/ast"
+	"go/printer"
 	"go/token"
 	"strconv"
 	"strings"
@@ -324,7 +326,309 @@ func dbTables(repo string) (string, error) {
 	fmt.Fprintf(&b, "Definition depth_stop : stop_kind := %s.\n", depthStop(fns["processTableDepth"], fns["placeUnorderedTables"]))
 	rr, av := modifyColumnShape(fns["writeModifySQLForAColumn"])
 	fmt.Fprintf(&b, "Definition delta_cfg : dcfg := DCfg %s %s %s.\n", rr, pkAddGuard(fns["writeModifySQLForATable"]), av)
+	fmt.Fprintf(&b, "Definition ref_guard : guard_kind := %s.\n", refGuard(pf.fset, uf.fset, fns))
+	fmt.Fprintf(&b, "Definition create_trim : trim_kind := %s.\n", createTrim(pf.fset, fns["writeCreateSQLForATable"]))
+	fmt.Fprintf(&b, "Definition addcol_post : post_kind := %s.\n", addColPost(pf.fset, fns["writeModifySQLForATable"]))
+	fmt.Fprintf(&b, "Definition column_text_shape : list string := [%s].\n", strings.Join(columnTextShape(pf.fset, fns["writeCreateSQLForAColumn"], fns["addConstraints"]), "; "))
+	fmt.Fprintf(&b, "Definition mod_apps_shape : list string := [%s].\n", strings.Join(modAppsShape(vf.fset, fns["ProcessModSysls"]), "; "))
 	return b.String(), nil
+}
+
+func dbText(fset *token.FileSet, n ast.Node) string {
+	if n == nil {
+		return ""
+	}
+	var b bytes.Buffer
+	printer.Fprint(&b, fset, n)
+	// blanks are normalised outside string literals only
+	src := b.String()
+	var out strings.Builder
+	space := false
+	for i := 0; i < len(src); i++ {
+		ch := src[i]
+		switch {
+		case ch == '"' || ch == '`':
+			j := i + 1
+			for j < len(src) && src[j] != ch {
+				if ch == '"' && src[j] == '\\' {
+					j++
+				}
+				j++
+			}
+			if space && out.Len() > 0 {
+				out.WriteByte(' ')
+			}
+			space = false
+			if j >= len(src) {
+				j = len(src) - 1
+			}
+			out.WriteString(src[i : j+1])
+			i = j
+		case ch == '/' && i+1 < len(src) && src[i+1] == '/':
+			for i < len(src) && src[i] != '\n' {
+				i++
+			}
+			space = true
+		case ch == ' ' || ch == '\t' || ch == '\n' || ch == '\r':
+			space = true
+		default:
+			if space && out.Len() > 0 {
+				out.WriteByte(' ')
+			}
+			space = false
+			out.WriteByte(ch)
+		}
+	}
+	return out.String()
+}
+
+func dbIfHead(fset *token.FileSet, ifs *ast.IfStmt) string {
+	h := ""
+	if ifs.Init != nil {
+		h = dbText(fset, ifs.Init) + "; "
+	}
+	return h + dbText(fset, ifs.Cond)
+}
+
+// refGuard: which columns take the "reference" branch in findTableDepth, writeCreateSQLForAColumn and
+// writeModifySQLForAColumn:
+//
+//	GuardTypeRef    - every column whose type is a type reference (attrType.GetTypeRef() != nil), whatever its path
+//	GuardForeignKey - only <table>.<column> references: the `ok` result of foreignKeyTarget, which itself is
+//	                  `len(path) < 2 -> false` over GetTypeRef().GetRef().GetPath(); everything else (primitives, sets,
+//	                  sequences, one-element references) takes the primitive branch
+func refGuard(pfset, ufset *token.FileSet, fns map[string]*ast.FuncDecl) string {
+	fk := fns["foreignKeyTarget"]
+	if fk == nil || fk.Body == nil {
+		return "GuardUnknown"
+	}
+	var fkBody []string
+	for _, st := range fk.Body.List {
+		fkBody = append(fkBody, dbText(ufset, st))
+	}
+	if strings.Join(fkBody, " | ") != `path := attrType.GetTypeRef().GetRef().GetPath() | if len(path) < 2 { return "", "", false } | return path[0], path[1], true` {
+		return "GuardUnknown"
+	}
+	votes := map[string]int{}
+	vote := func(head, fkHead, trHead string) {
+		switch head {
+		case fkHead:
+			votes["GuardForeignKey"]++
+		case trHead:
+			votes["GuardTypeRef"]++
+		default:
+			votes["GuardUnknown"]++
+		}
+	}
+	// findTableDepth: the if/else in the loop over the attributes whose else-branch records the primitive
+	head := "?"
+	if fd := fns["findTableDepth"]; fd != nil && fd.Body != nil {
+		n := 0
+		ast.Inspect(fd.Body, func(nd ast.Node) bool {
+			if ifs, ok := nd.(*ast.IfStmt); ok {
+				if eb, ok := ifs.Else.(*ast.BlockStmt); ok && len(eb.List) == 1 &&
+					dbText(ufset, eb.List[0]) == `tempVisitedAttrs[tableName+"."+attrName] = attrType.GetPrimitive().String()` {
+					head = dbIfHead(ufset, ifs)
+					n++
+				}
+			}
+			return true
+		})
+		if n != 1 {
+			head = "?"
+		}
+	}
+	vote(head, "refTable, refColumn, isForeignKey := foreignKeyTarget(attrType); isForeignKey", "attrType.GetTypeRef() != nil")
+	// writeCreateSQLForAColumn: the top-level if/else whose else-branch handles isAutoIncrement
+	head = "?"
+	if fd := fns["writeCreateSQLForAColumn"]; fd != nil && fd.Body != nil {
+		n := 0
+		for _, st := range fd.Body.List {
+			if ifs, ok := st.(*ast.IfStmt); ok {
+				if eb, ok := ifs.Else.(*ast.BlockStmt); ok && strings.Contains(dbText(pfset, eb), "if isAutoIncrement {") {
+					head = dbIfHead(pfset, ifs)
+					n++
+				}
+			}
+		}
+		if n != 1 {
+			head = "?"
+		}
+	}
+	vote(head, "path0, path1, isForeignKey := foreignKeyTarget(attrType); isForeignKey", "attrType.GetTypeRef() != nil")
+	// writeModifySQLForAColumn: the top-level if/else whose else-branch computes getDataTypeAndSize, and in it the
+	// guard of the DROP CONSTRAINT of the old foreign key
+	head = "?"
+	if fd := fns["writeModifySQLForAColumn"]; fd != nil && fd.Body != nil {
+		n := 0
+		var defs []string
+		for _, st := range fd.Body.List {
+			if as, ok := st.(*ast.AssignStmt); ok && len(as.Lhs) == 3 {
+				defs = append(defs, dbText(pfset, as))
+			}
+			if ifs, ok := st.(*ast.IfStmt); ok {
+				if eb, ok := ifs.Else.(*ast.BlockStmt); ok && strings.Contains(dbText(pfset, eb), "getDataTypeAndSize(attrTypeNew)") {
+					inner := "?"
+					for _, s2 := range eb.List {
+						if in, ok := s2.(*ast.IfStmt); ok && len(in.Body.List) == 1 && strings.Contains(dbText(pfset, in.Body.List[0]), "DROP CONSTRAINT") {
+							inner = dbIfHead(pfset, in)
+						}
+					}
+					head = strings.Join(defs, "; ") + " / " + dbIfHead(pfset, ifs) + " / " + inner
+					n++
+				}
+			}
+		}
+		if n != 1 {
+			head = "?"
+		}
+	}
+	vote(head,
+		"refTable, refColumn, isForeignKeyNew := foreignKeyTarget(attrTypeNew); oldTable, oldColumn, isForeignKeyOld := foreignKeyTarget(attrTypeOld) / isForeignKeyNew / isForeignKeyOld",
+		" / typeRefNew != nil / typeRefOld != nil")
+	switch {
+	case votes["GuardForeignKey"] == 3:
+		return "GuardForeignKey"
+	case votes["GuardTypeRef"] == 3:
+		return "GuardTypeRef"
+	}
+	return "GuardUnknown"
+}
+
+// createTrim: what writeCreateSQLForATable does with the table body after addConstraints:
+//
+//	TrimComma   - strings.TrimSuffix(tableData, ",")                                (a body ending in ",\n" keeps its comma)
+//	TrimNlComma - strings.TrimSuffix(strings.TrimSuffix(tableData, "\n"), ",")
+//
+// and then writes the body followed by "\n);\n"
+func createTrim(fset *token.FileSet, fd *ast.FuncDecl) string {
+	if fd == nil || fd.Body == nil || len(fd.Body.List) < 4 {
+		return "TrimUnknown"
+	}
+	l := fd.Body.List
+	var tail []string
+	for _, st := range l[len(l)-4:] {
+		tail = append(tail, dbText(fset, st))
+	}
+	if tail[0] != "tableData = v.addConstraints(tableData, tableName, foreignKeyConstraints, primaryKeys)" ||
+		tail[2] != "v.stringBuilder.WriteString(tableData)" || tail[3] != `v.stringBuilder.WriteString("\n);\n")` {
+		return "TrimUnknown"
+	}
+	// the body before: every column text appended in order
+	loop := ""
+	for _, st := range l[:len(l)-4] {
+		if r, ok := st.(*ast.RangeStmt); ok && dbText(fset, r.X) == "attrNames" && dbText(fset, r.Key) == "_" {
+			loop = dbText(fset, r.Body)
+		}
+	}
+	if loop != "{ attrType := table.AttrDefs[attrName] s, _ := v.writeCreateSQLForAColumn(attrType, tableName, attrName, &primaryKeys, &foreignKeyConstraints, visitedAttributes) tableData += s }" {
+		return "TrimUnknown"
+	}
+	switch tail[1] {
+	case `tableData = strings.TrimSuffix(tableData, ",")`:
+		return "TrimComma"
+	case `tableData = strings.TrimSuffix(strings.TrimSuffix(tableData, "\n"), ",")`:
+		return "TrimNlComma"
+	}
+	return "TrimUnknown"
+}
+
+// addColPost: the "attribute added" block of writeModifySQLForATable: TrimSpace, drop the last byte, ADD COLUMN;
+// the first foreign-key constraint without its last byte, TrimSpace, ADD
+func addColPost(fset *token.FileSet, fd *ast.FuncDecl) string {
+	if fd == nil || fd.Body == nil {
+		return "PostUnknown"
+	}
+	var block *ast.BlockStmt
+	n := 0
+	ast.Inspect(fd.Body, func(nd ast.Node) bool {
+		if ifs, ok := nd.(*ast.IfStmt); ok && ifs.Init == nil && dbText(fset, ifs.Cond) == "attrTypeOld == nil" {
+			block = ifs.Body
+			n++
+		}
+		return true
+	})
+	if n != 1 || block == nil {
+		return "PostUnknown"
+	}
+	var got []string
+	for _, st := range block.List {
+		got = append(got, dbText(fset, st))
+	}
+	want := []string{
+		"var foreignKeyConstraints []string",
+		"str, isNewColumnPK := v.writeCreateSQLForAColumn(attrTypeNew, tableName, attrNameNew, &primaryKeys, &foreignKeyConstraints, visitedAttributes)",
+		"str = strings.TrimSpace(str)",
+		"str = str[:len(str)-1]",
+		`v.stringBuilder.WriteString(fmt.Sprintf("ALTER TABLE %s ADD COLUMN %s;\n", tableName, str))`,
+		`if len(foreignKeyConstraints) > 0 { constraint := foreignKeyConstraints[0] constraint = constraint[:len(constraint)-1] v.stringBuilder.WriteString(fmt.Sprintf("ALTER TABLE %s ADD %s;\n", tableName, strings.TrimSpace(constraint))) }`,
+		"if isNewColumnPK { primaryKeyChanged = true }",
+	}
+	if strings.Join(got, " | ") == strings.Join(want, " | ") {
+		return "PostTrimDropLast"
+	}
+	return "PostUnknown"
+}
+
+// columnTextShape: the texts writeCreateSQLForAColumn / addConstraints build (formats and concatenations), in source
+// order: every fmt.Sprintf format assigned to s, the foreign-key constraint expression, the primary-key and
+// foreign-key appends of addConstraints
+func columnTextShape(fset *token.FileSet, col, cons *ast.FuncDecl) []string {
+	var out []string
+	if col == nil || col.Body == nil || cons == nil || cons.Body == nil {
+		return []string{coqStr("?")}
+	}
+	ast.Inspect(col.Body, func(nd ast.Node) bool {
+		switch x := nd.(type) {
+		case *ast.AssignStmt:
+			if len(x.Lhs) == 1 && isIdent(x.Lhs[0], "s") {
+				out = append(out, coqStr(dbText(fset, x)))
+			}
+		case *ast.CallExpr:
+			if isIdent(x.Fun, "append") && len(x.Args) == 2 && dbText(fset, x.Args[0]) == "*foreignKeyConstraints" {
+				out = append(out, coqStr(dbText(fset, x.Args[1])))
+			}
+		}
+		return true
+	})
+	for _, st := range cons.Body.List {
+		out = append(out, coqStr(dbText(fset, st)))
+	}
+	return out
+}
+
+// modAppsShape: the statements of ProcessModSysls (one script per application name that exists in the new version;
+// the shared builder is reset before each)
+func modAppsShape(fset *token.FileSet, fd *ast.FuncDecl) []string {
+	if fd == nil || fd.Body == nil {
+		return []string{coqStr("?")}
+	}
+	var out []string
+	for _, st := range fd.Body.List {
+		if r, ok := st.(*ast.RangeStmt); ok {
+			out = append(out, coqStr("for "+dbText(fset, r.Key)+", "+dbText(fset, r.Value)+" := range "+dbText(fset, r.X)))
+			for _, s2 := range r.Body.List {
+				if ifs, ok := s2.(*ast.IfStmt); ok {
+					for cur := ifs; cur != nil; {
+						out = append(out, coqStr("if "+dbIfHead(fset, cur)))
+						for _, s3 := range cur.Body.List {
+							out = append(out, coqStr(dbText(fset, s3)))
+						}
+						next, _ := cur.Else.(*ast.IfStmt)
+						if cur.Else != nil && next == nil {
+							out = append(out, coqStr("else "+dbText(fset, cur.Else)))
+						}
+						cur = next
+					}
+				} else {
+					out = append(out, coqStr(dbText(fset, s2)))
+				}
+			}
+		} else {
+			out = append(out, coqStr(dbText(fset, st)))
+		}
+	}
+	return out
 }
 
 // formats of the v.stringBuilder.WriteString(fmt.Sprintf(<format>, ...)) statements of a block, in order
@@ -401,9 +705,17 @@ func modifyColumnShape(fd *ast.FuncDecl) (string, string) {
 	if fd == nil || fd.Body == nil {
 		return rr, av
 	}
+	// top-level `a, b, c := foreignKeyTarget(x)` definitions
+	var topDefs []string
+	for _, st := range fd.Body.List {
+		if as, ok := st.(*ast.AssignStmt); ok && len(as.Rhs) == 1 && len(as.Lhs) == 3 {
+			topDefs = append(topDefs, exprText(as.Lhs[0])+","+exprText(as.Lhs[1])+","+exprText(as.Lhs[2])+"="+exprText(as.Rhs[0]))
+		}
+	}
+	fkGuarded := strings.Join(topDefs, ";") == "refTable,refColumn,isForeignKeyNew=foreignKeyTarget(attrTypeNew);oldTable,oldColumn,isForeignKeyOld=foreignKeyTarget(attrTypeOld)"
 	for _, st := range fd.Body.List {
 		ifs, ok := st.(*ast.IfStmt)
-		if !ok || exprText(ifs.Cond) != "(typeRefNew!=nil)" {
+		if !ok || !(exprText(ifs.Cond) == "(typeRefNew!=nil)" || (fkGuarded && exprText(ifs.Cond) == "isForeignKeyNew")) {
 			continue
 		}
 		// then-branch: ...; [if !isForeignKey {warn} else] if typeRefOld == nil {...} [else if targets differ {...}]
@@ -429,7 +741,7 @@ func modifyColumnShape(fd *ast.FuncDecl) (string, string) {
 				}
 				in = next
 			}
-			if exprText(in.Cond) != "(typeRefOld==nil)" {
+			if !(exprText(in.Cond) == "(typeRefOld==nil)" || (fkGuarded && exprText(in.Cond) == "!isForeignKeyOld")) {
 				continue
 			}
 			switch e := in.Else.(type) {
@@ -448,7 +760,7 @@ func modifyColumnShape(fd *ast.FuncDecl) (string, string) {
 							defs = append(defs, exprText(as.Lhs[0])+","+exprText(as.Lhs[1])+"="+exprText(as.Rhs[0]))
 						}
 					}
-					condOK = strings.Join(defs, ";") == "refTable,refColumn=foreignKeyTarget(attrTypeNew);oldTable,oldColumn=foreignKeyTarget(attrTypeOld)"
+					condOK = fkGuarded || strings.Join(defs, ";") == "refTable,refColumn=foreignKeyTarget(attrTypeNew);oldTable,oldColumn=foreignKeyTarget(attrTypeOld)"
 				}
 				fm := writtenFormats(e.Body)
 				if condOK && e.Else == nil && len(fm) == 3 &&
